@@ -342,7 +342,12 @@ func TestC16(t *testing.T) {
 			core.Err = errInjectedNotSupported
 		}
 		w, canFlush := mon.MakeRW(shape, core)
-		req := httptest.NewRequest(http.MethodGet, "http://verif.invalid/", http.NoBody)
+		// a third of the requests carry look-alikes of the header in the URL: only the header counts
+		target := "http://verif.invalid/"
+		if rng.IntN(3) == 0 {
+			target = "http://verif.invalid/events?lastEventId=fromquery&last-event-id=fromquery&Last-Event-ID=fromquery&lastEventID=fromquery&last_event_id=fromquery&id=fromquery"
+		}
+		req := httptest.NewRequest(http.MethodGet, target, http.NoBody)
 		if hv != nil {
 			req.Header["Last-Event-Id"] = hv
 		}
